@@ -21,6 +21,9 @@ CHECKS = {
  "C10": ("model_checking", "explicit-state BFS (depth-bounded, virtual clock, blocking Read as a scheduler thread) on the real mem queue vs a reference list model",
   "Every operation sequence over Add(6 variants)/Read/ReadInflight/Remove/Replace/Init/Close/Advance up to depth 6 (quick) / 8 (thorough), plus breadth-first continuation from directed resumed-session states, for max in {1,2,3} x inflight_expiry in {0,30s}, on the real mem queue; after every operation the private list is compared with the reference list (conservation, bound), outputs with the FIFO/id/expiry/oversize/replay rules, the drop victim with the documented ladder, and the summed notifier deltas with the contents.",
   "Callers respect the documented preconditions (drain ReadInflight before Read; Init only after Close). Counters are compared from the last Init(clean). The redis queue is covered via C09's crash/restart histories rather than by this operation-level search. Trusted: vsched Cond/clock semantics, state dump.", "DESIGN.md 8/C10"),
+ "C18": ("exploration", "exhaustive small-scope enumeration of websocket message segmentations x read-size patterns through the broker's real upgrader and wsConn adapter",
+  "Every sequence of <=3 binary messages of 0..6 bytes x every cyclic pattern of <=2 (quick) / <=3 (thorough) read sizes 1..7, boundary message sizes around the 1024-byte reader x boundary read sizes, text messages at every position, and write-side framing, all through the real defaultUpgrader + wsConn (client frames come from an independent RFC 6455 framer).",
+  "Enumeration of inputs (the property quantifies over inputs only). Trusted: harness framer, in-memory conn; the HTTP server and TCP are not in the loop (the handler is driven through a fake hijackable ResponseWriter).", "DESIGN.md 8/C18"),
 }
 NA_DEFAULT = "check not built yet in this session (planned design in DESIGN.md section 8)"
 
